@@ -1,6 +1,6 @@
 \* two indexes x two attempts, AnySuccessful, one fault: an unrecorded task when the strategy gets decided
 CONSTANTS N = 2 MaxAtt = 2 Delay = 0 Strategy = "AnySuccessful" PT = 0 FD = 2 TTL = 2 Forbid = FALSE Foreign = FALSE MaxTime = 1 MaxEvq = 2 MaxFaults = 1 MaxCrash = 0 Fresh = TRUE KillDelays = {} KillEdits = {} UserDeletes = FALSE ExtDeletes = FALSE NodeDowns = FALSE
- Rejects = FALSE Holds = FALSE Invalids = FALSE D = 48 K = 25 Goals = {1, 7}
+ Rejects = FALSE Holds = FALSE Invalids = FALSE WatchBreaks = FALSE D = 48 K = 25 Goals = {1, 7}
 SPECIFICATION GSpec2
 VIEW GView
 INVARIANTS Goal1 Goal7 Stop
